@@ -11,3 +11,4 @@ open Qvnt
 #print axioms C03_mul_dgr
 #print axioms C03_adjoint_matrix
 #print axioms C03_code_dgr
+#print axioms C03_code_inverse
